@@ -6,7 +6,7 @@ warnings.simplefilter("ignore")
 if sys.argv[1] == "n0":
     # empty simulation: step() and integrate() must not crash or hang; afterwards the same object must still work
     integ = sys.argv[2]
-    sim = rebound.Simulation(); sim.integrator = integ; sim.dt = 0.01
+    sim = rebound.Simulation(); sim.rand_seed = 4242; sim.integrator = integ; sim.dt = 0.01
     if integ == "saba": sim.ri_saba.type = 6
     sim.step(); sim.step()
     t2 = sim.t
@@ -21,7 +21,7 @@ if sys.argv[1] == "n0":
     print(json.dumps({"probe": "n0", "integrator": integ, "t_after_two_empty_steps": t2, "errors": [0.0], "t": sim.t, "ok": ok}))
     sys.exit(0)
 nb = int(sys.argv[1]); other = sys.argv[2]
-sim = rebound.Simulation()
+sim = rebound.Simulation(); sim.rand_seed = 4242
 sim.add(m=1.0); sim.add(m=1e-3, a=1.0, e=0.05); sim.add(m=5e-4, a=2.1, e=0.03, f=2.0)
 sim.move_to_com()
 sim.integrator = "bs"; sim.ri_bs.eps_rel = 1e-9; sim.ri_bs.eps_abs = 1e-9
